@@ -46,7 +46,7 @@ META = {
     "min_evaluations": {"quick": 6000, "thorough": 200000},
 }
 EXTRA_OPS = ["construct", "ring", "derivative", "call", "align", "pickle", "lead", "compare", "divmod",
-             "getset", "program", "program"]
+             "getset", "program", "program", "finite"]
 
 
 def shards(tier, seed):
@@ -119,6 +119,15 @@ def gen_extra(g, name):
         case["operands"] = [a, b]
     if name == "program":
         case["kw"] = {"which": rng.randrange(6), "c": rng.choice([1, 2, 3]), "n": rng.choice([2, 3])}
+    if name == "finite":
+        # a non-constant term whose coefficients are non-finite in every element
+        a = g.poly(shape=shape, kind="float", maxexp=3, nterms=rng.choice([2, 3]), allow_views=False)
+        rows = [k for k, row in enumerate(a["exps"]) if any(row)]
+        for k in rng.sample(rows, min(len(rows), rng.choice([1, 1, 2]))):
+            a["coefs"][k] = G.nested_map(
+                lambda v: G.jnum(rng.choice([float("nan"), float("inf"), float("-inf")])),
+                a["coefs"][k])
+        case["operands"] = [a, b]
     if name == "divmod":
         names = rng.choice([["q0"], ["q0", "q1"]])
         case["operands"] = [
@@ -202,6 +211,8 @@ def run_extra(case, real):
         p = c * q0 ** n * q1 - q2
         z = p - p
         return z, z + 1, pickle.loads(pickle.dumps(z)), (p * z).tonumpy()
+    if name == "finite":
+        return numpoly.isfinite(a), numpy.isfinite(a), numpoly.isfinite(b)
     if name == "getset":
         return a[..., None] if a.ndim else a[None], a.ravel(), a.T, list(a)[:2] if a.ndim else None
     raise ValueError(name)
